@@ -33,6 +33,17 @@ def run_witness(ctx):
     src, root = _witness_dir(ctx)
     crate = os.path.join(root, "crate")
     os.makedirs(os.path.join(crate, "src"), exist_ok=True)
+    import fcntl
+    lock = open(os.path.join(root, ".lock"), "w")
+    fcntl.flock(lock, fcntl.LOCK_EX)     # one analysis at a time per witness directory
+    try:
+        return _run_witness_locked(src, root, crate)
+    finally:
+        fcntl.flock(lock, fcntl.LOCK_UN)
+        lock.close()
+
+
+def _run_witness_locked(src, root, crate):
     with open(os.path.join(VERIF, "witness", "Cargo.toml.in")) as f:
         toml = f.read().replace("@SUX@", src)
     with open(os.path.join(crate, "Cargo.toml"), "w") as f:
